@@ -986,6 +986,12 @@ certificates, results or store contents across calls disagrees with this predict
 theorem run_history_irrelevant (i : Input) (h : List String) (b f k : String) :
     run { i with history := h, backend := b, format := f, kind := k } = run i := rfl
 
+/-- **run_sameKey_irrelevant**: which certificates share a public key (or a name) with which plays
+no role - a store confers trust only through a certificate IDENTICAL to one of the chain
+(`auth_pass_sound`: `c ∈ chain` and `c ∈ cs` for the same `c`) -/
+theorem run_sameKey_irrelevant (i : Input) (g : List (List CertId)) :
+    run { i with sameKey := g } = run i := rfl
+
 /-- hence any two verifications that differ only in their history are predicted alike -/
 theorem run_eq_of_same_call (i j : Input) (hs : i.scheme = j.scheme) (hc : i.chain = j.chain)
     (hst : i.statements = j.statements) (hr : i.repo = j.repo) (hw : i.world = j.world)
@@ -1008,7 +1014,7 @@ def exInput (scheme : Scheme) (l : List String) : Input :=
   { scheme := scheme, chain := [0, 1, 2], repo := "reg.example/a".toList, world := exWorld,
     statements := [ ⟨["reg.example/a".toList], l.map String.toList, .strict, false⟩,
                     ⟨["*".toList], ["ca:alpha".toList, "signingAuthority:alpha".toList], .strict, false⟩ ],
-    refOk := true, identityOk := true, plugin := "none", backend := "mem", format := "jws", kind := "oci", history := [] }
+    refOk := true, sameKey := [], identityOk := true, plugin := "none", backend := "mem", format := "jws", kind := "oci", history := [] }
 
 /-- trusted: the root is in the listed ca store -/
 example : run (exInput .x509 ["ca:gamma", "tsa:alpha", "ca:alpha", "ca:gamma"]) =
